@@ -130,6 +130,9 @@ static void childFlushHook() {      // in a forked child: console bytes reach th
     if (PS.pipeFd[1] < 0) return;
     while (PS.childFlushPos < c.size()) { ssize_t w = write(PS.pipeFd[1], c.data() + PS.childFlushPos, c.size() - PS.childFlushPos); if (w <= 0) break; PS.childFlushPos += (size_t)w; }
 }
+// The simulator process has exit-time state of its own (as any program under test may have: joinable threads, handlers that remove what the parent still
+// uses). A forked test child never runs it: it ends without the runner's exit handlers. One that does is killed on the spot - its parent then sees a death.
+static void exitTimeStateOfTheRunner() { if (PS.inChild) { signal(SIGABRT, SIG_DFL); abort(); } }
 static void drainChildPipe(Obs& o) { if (PS.pipeFd[0] < 0) return; char buf[4096]; ssize_t n; while ((n = read(PS.pipeFd[0], buf, sizeof buf)) > 0) { o.childConsole.append(buf, (size_t)n); o.terminal.append(buf, (size_t)n); } }
 static void procLog(int what, int64_t v) { RS.o->procLog.push_back(PS.test); RS.o->procLog.push_back(what); RS.o->procLog.push_back(v); }
 static int simFork() {
@@ -313,6 +316,12 @@ static void execOp(const Group& T, const Op& o) {
             else if (bc.bytes == 4) { unsigned int e = (unsigned int)bc.expected, a = (unsigned int)bc.actual; BITS_LOCATION(e, a, bc.mask, text, file, line); }
             else { unsigned long e = bc.expected, a = bc.actual; BITS_LOCATION(e, a, bc.mask, text, file, line); }
             break; }
+        case 29: STRCMP_CONTAINS_LOCATION((const char*)0, "abc", text, file, line); break;      // exactly one operand is the null pointer (both forms, both orders)
+        case 30: STRCMP_CONTAINS_LOCATION("abc", (const char*)0, text, file, line); break;
+        case 31: STRCMP_NOCASE_CONTAINS_LOCATION((const char*)0, "abc", text, file, line); break;
+        case 32: STRCMP_NOCASE_CONTAINS_LOCATION("abc", (const char*)0, text, file, line); break;
+        case 33: STRNCMP_EQUAL_LOCATION("abc", (const char*)0, 2, text, file, line); break;
+        case 34: STRCMP_NOCASE_EQUAL_LOCATION((const char*)0, "abc", text, file, line); break;
         default: ENUMS_EQUAL_TYPE_LOCATION(int, 1, 2, text, file, line); break;
         }
         break;
@@ -442,7 +451,7 @@ public:
                 if (PS.inChild) { if (o.kind == K_DIE_SIGNAL) { fflush(0); raise((int)o.a); } else if (o.kind == K_DIE_EXIT) _exit((int)o.a); else { signal(SIGABRT, SIG_DFL); throwOrAbort(o.b == 1); } }
             } else if (o.kind == K_PLUGIN_REMOVE && phase == PH_PRE) {      // a plugin's pre action takes a plugin out of the chain that sits behind it (was installed earlier): that one sees nothing of this test any more
                 pushEv(E_OP, t, phase, (int)i, pidx);
-                size_t q = (size_t)o.a; if (q < RS.pluginObjs.size() && (int)q != pidx) { if (RS.pluginInstalled[q]) fired("plugin_removed_by_a_pre_action"); RS.reg->removePluginByName(RS.pluginObjs[q]->getName()); RS.pluginInstalled[q] = 0; }
+                size_t q = (size_t)o.a; if (q < RS.pluginObjs.size()) { if (RS.pluginInstalled[q]) fired((int)q == pidx ? "plugin_removes_itself_in_its_pre_action" : "plugin_removed_by_a_pre_action"); RS.reg->removePluginByName(RS.pluginObjs[q]->getName()); RS.pluginInstalled[q] = 0; }
             } else pushEv(E_OP, t, phase, (int)i, pidx);
         }
     }
@@ -590,6 +599,7 @@ void executeRun(const Desc& d, Obs& o) {
         }
     }
     installBasicSeams(true); g_fileLayerActive = true;
+    atexit(exitTimeStateOfTheRunner);
     installHeapSeam(); g_steerSeed = d.seed; g_steerCount = 0; g_steerMode = (int)d.pi("bucket", -1); g_steerOn = d.pi("steer", 0) != 0 || g_steerMode >= 0;
     static bool first = true;
     if (first) { first = false; for (int i = 0; i < N_TARGETS; i++) g_tgt[i] = &g_init[i]; }
